@@ -103,6 +103,13 @@ func runC06(c *Ctx) {
 		fn := c.P.Funcs[n]
 		if pk[pkgShort(fn)] && isCallMethod(fn) && !done[n] {
 			rest = append(rest, fn)
+			continue
+		}
+		// helpers that evaluate forms themselves (clause preparation of select, binding helpers ...) hold the
+		// forms of their caller: they are under the clause on their own, they are too large or loop and are
+		// not inlined into the Call method
+		if pk[pkgShort(fn)] && !done[n] && fn.Parent() == nil && len(fn.Blocks) > 0 && fn.Synthetic == "" && !strings.Contains(fn.Name(), "init") && vc.EvaluatesForms(fn) {
+			rest = append(rest, fn)
 		}
 	}
 	o4 := base
